@@ -853,6 +853,69 @@ func ruleSqrtExactLastDigit(w *World, r *RuleResult) {
 				}
 			}
 		}
+		// a boolean set under the comparison and handed to an unexported helper that raises Inexact under it
+		// (roundRoot(d, v, inexact))
+		if !steersInexact {
+			for _, c := range cmps {
+				for _, b := range hf.Blocks {
+					for _, in := range b.Instrs {
+						phi, isPhi := in.(*ssa.Phi)
+						if !isPhi || phi.Type().String() != "bool" {
+							continue
+						}
+						set := false
+						for ei, e := range phi.Edges {
+							if k, isK := e.(*ssa.Const); !isK || !constBoolTrue(k) {
+								continue
+							}
+							pred := phi.Block().Preds[ei]
+							for _, pg := range append(edgeGuards(pred, phi.Block()), guardsAt(pred)...) {
+								if w.condMentions(pg.Cond, c) {
+									set = true
+								}
+							}
+						}
+						if !set {
+							continue
+						}
+						// the boolean and the φs that merge it with other values further down
+						derived := map[ssa.Value]bool{phi: true}
+						for grew := true; grew; {
+							grew = false
+							for _, ob := range hf.Blocks {
+								for _, oin := range ob.Instrs {
+									op, isP := oin.(*ssa.Phi)
+									if !isP || derived[op] {
+										continue
+									}
+									for _, e := range op.Edges {
+										if derived[e] {
+											derived[op] = true
+											grew = true
+										}
+									}
+								}
+							}
+						}
+						for _, ci := range callsIn(hf) {
+							hc, isC := ci.(*ssa.Call)
+							if !isC {
+								continue
+							}
+							h := callee(hc)
+							if h == nil || !w.inPkg(h) || len(h.Blocks) == 0 || (h.Object() != nil && h.Object().Exported()) {
+								continue
+							}
+							for ai, a := range hc.Common().Args {
+								if derived[a] && ai < len(h.Params) && w.raisesInexactUnder(h, h.Params[ai]) {
+									steersInexact = true
+								}
+							}
+						}
+					}
+				}
+			}
+		}
 		// the exact location must not be skipped for some results: a comparison site guarded by the context's
 		// exponent limits means that results outside the normal range (subnormal ones) are rounded from the
 		// iterate after all, twice
@@ -955,4 +1018,41 @@ func ruleSqrtExactLastDigit(w *World, r *RuleResult) {
 	default:
 		r.bad(key, w.pos(f.Pos()), fmt.Sprintf("the iterate is rounded without being checked against the operand (exact comparisons found: %d, one steers the last digit: %v, one steers Inexact: %v): when the root lies just below a rounding midpoint or a representable value the iterate can be that very point, and rounding it resolves a tie that does not exist (Sqrt(0.9999999) at Precision 7 = 1.000000; Sqrt(0.999999998) at Precision 9 reported exact)", len(cmps), steersIncr, steersInexact))
 	}
+}
+
+// raisesInexactUnder: in h, a constant carrying Inexact is or-ed in, or chosen
+// by a φ, under a branch on the boolean parameter p.
+func (w *World) raisesInexactUnder(h *ssa.Function, p *ssa.Parameter) bool {
+	inexact := w.conditionConsts()["Inexact"]
+	for _, b := range h.Blocks {
+		for _, in := range b.Instrs {
+			switch x := in.(type) {
+			case *ssa.BinOp:
+				if x.Op != token.OR {
+					continue
+				}
+				for _, o := range []ssa.Value{x.X, x.Y} {
+					if bits, isK := condBits(o); isK && bits&inexact != 0 {
+						for _, g := range guardsAt(b) {
+							if g.Val && w.condMentions(g.Cond, p) {
+								return true
+							}
+						}
+					}
+				}
+			case *ssa.Phi:
+				for ei, e := range x.Edges {
+					if bits, isK := condBits(e); isK && bits&inexact != 0 {
+						pred := x.Block().Preds[ei]
+						for _, g := range append(edgeGuards(pred, x.Block()), guardsAt(pred)...) {
+							if g.Val && w.condMentions(g.Cond, p) {
+								return true
+							}
+						}
+					}
+				}
+			}
+		}
+	}
+	return false
 }
